@@ -7,6 +7,7 @@ import (
 	"fmt"
 	"iter"
 	"sort"
+	"sync/atomic"
 )
 
 // HashFn, when set, decides every table/sketch hash: seed identifies the
@@ -22,11 +23,11 @@ var Procs = 1
 // ParallelismValue answers xruntime.Parallelism (buffer sizing at init).
 const ParallelismValue = 4
 
-var seedCounter uint64
+var seedCounter atomic.Uint64
 
 // Reset restores defaults and the hasher seed counter (call per execution).
 func Reset() {
-	seedCounter = 0
+	seedCounter.Store(0)
 	HashFn = nil
 	RandFn = nil
 	Procs = 1
@@ -34,8 +35,7 @@ func Reset() {
 
 // NextSeed numbers hasher instances in creation order.
 func NextSeed() uint64 {
-	seedCounter++
-	return seedCounter
+	return seedCounter.Add(1)
 }
 
 func mix(x uint64) uint64 {
